@@ -216,6 +216,7 @@ def run(ctx):
             check_cost(ctx, e['from']['cfg'], e['l'], dr, rng, fails)
             n += 1
     ctx.traces += n
+    ctx.exhaustive['binding: every Stride-th configuration, seeded trial vectors'] = False
     ctx.stage('replay.cost', configurations_exported=len(edges) // 3, cost_evaluations=n, grids=[0.125, 0.1])
     # solved objects: configurations whose every pair is a hard-core PY/HNC/flagged pair converge most reliably
     m = 0
